@@ -223,6 +223,9 @@ def run(run):
             got.add(tuple(cl_) if cl_ is not None else ("?" + x,))
         want = ("map(sorted(ELEM(brothers), key=bytes.fromhex(get_block_hash($x))))",)
         ok = got == {want}
+        run.check("R4", ok, "each brother list is sorted ascending by block-hash bytes, all brothers kept", key="advance_blockchain|brothers-sort", where=adv.loc(c),
+                  message=f"advance_blockchain passes brothers prepared as {sorted(got)[:2]}; expected {want}: another order, key or a collapsed / filtered list is not "
+                          "what the device asks for when it requests a block's brothers")
         run.check("R4", norm(c.args[1]) == "blocks", "blocks passed unmodified", key="advance_blockchain|blocks", where=adv.loc(c),
                   message=f"advance_blockchain passes blocks = `{norm(c.args[1])}`")
     gbh = P.func("ledger.block_utils.get_block_hash")
@@ -259,6 +262,7 @@ def run(run):
     _mm_table(run, F, PV, upd, D)
     # ---------------------------------------------------------------- R7
     _brother_list_answer(run, PV, D, dbo, g, lay)
+    _block_loop_outcome(run, PV, D, dbo, g)
     # byte-exact relay under any chunk-request pattern: the chunk loop's decision table (rule R3 of C01) under the prefix K.
     from . import c01
     sdc_ = P.method(D, "_send_data_in_chunks")
@@ -330,6 +334,77 @@ def run(run):
                     facts.add(t)
             run.check("R6", "len(block) in [19, 20]" in facts or "len(block) in (19, 20)" in facts, "only for 19/20-field headers", key="get_coinbase_txn|field-count", where=gc.loc(r),
                       message="get_coinbase_txn accepts headers without merge-mining fields")
+
+
+def _block_loop_outcome(run, PV, D, dbo, g):
+    """R8: the device decides when the operation ends."""
+    P, A = run.P, run.A
+    run.rule("R8", "End of the operation: inside the per-block loop, after every exchange of a block (header, brother-list metadata, brothers) and before "
+             "the next block is sent, the operation byte of the device's latest answer is tested for ops.SUCCESS -> return (True, OK_TOTAL) and (advance) "
+             "ops.PARTIAL -> return (True, OK_PARTIAL); these are the only sources of OK_TOTAL / OK_PARTIAL.")
+    heads = [n for n in g.nodes if n.kind == "for" and isinstance(n.ast, ast.For) and norm(n.ast.iter) == "enumerate(blocks, 1)"]
+    run.require(len(heads) == 1, "_do_block_operation: the loop over enumerate(blocks, 1) was not identified")
+    H = heads[0]
+    loop = H.ast
+    inloop = {id(x) for st_ in loop.body for x in ast.walk(st_)}
+    noexc = lambda a, b: not g.is_exc_edge(a, b)   # noqa: E731
+    X = [cn for c in A.own_nodes(dbo) if isinstance(c, ast.Call) and id(c) in inloop and call_name(c) in ("_send_block_header", "_send_command")
+         for cn in g.nodes_of(c)]
+    run.floor("R8", "device exchanges inside the block loop", len(X), 3)
+
+    def tests(member):
+        """(cond node, T edge, F edge) of the tests `<latest answer>[OFF.OP] == ops.<member>` inside the loop"""
+        out = []
+        for n in g.nodes:
+            if n.kind != "cond" or id(n.ast) not in inloop:
+                continue
+            cp = cmp_parts(n.ast)
+            if cp is None:
+                continue
+            l, op, r = cp
+            if op not in ("==", "!=") or _strip(norm(r)) != f"ops.{member}":
+                continue
+            srcs = {_strip(x) for x in PV.expand_consistent(dbo, D, l, n)}
+            okl = bool(srcs) and all(x.endswith("[self.OFF.OP]") and ("self._send_block_header(" in x or "self._send_command(" in x) for x in srcs)
+            if not okl:
+                continue
+            te = [e for e in g.nodes if e.kind == ("T" if op == "==" else "F") and e.cond is n]
+            fe = [e for e in g.nodes if e.kind == ("F" if op == "==" else "T") and e.cond is n]
+            out.append((n, te, fe, srcs))
+        return out
+    for member, resp, advance_only in (("SUCCESS", "OK_TOTAL", False), ("PARTIAL", "OK_PARTIAL", True)):
+        ts = tests(member)
+        run.check("R8", len(ts) >= 1, f"the latest answer is tested for ops.{member} inside the block loop", key=f"_do_block_operation|{member}|test", where=dbo.loc(loop),
+                  message=f"inside the per-block loop no test of the device's latest answer against ops.{member} was found: the device ending the operation "
+                          f"after k < n blocks is not noticed and further blocks are sent to it")
+        t_edges = {e for _, te, _, _ in ts for e in te}
+        f_edges = {e for _, _, fe, _ in ts for e in fe}
+        if advance_only:
+            # `command == self.CMD.ADVANCE and ...`: for update-ancestor the F edge of the command test stands for it
+            for n in g.nodes:
+                if n.kind == "cond" and id(n.ast) in inloop and _strip(norm(n.ast)) in ("command == self.CMD.ADVANCE",):
+                    if any(c_ in g.reachable(e, edge_ok=noexc) for e in g.nodes if e.kind == "T" and e.cond is n for c_, _, _, _ in ts):
+                        f_edges |= {e for e in g.nodes if e.kind == "F" and e.cond is n}
+        for x in X:
+            p_ = g.witness_path(x, H, avoid=f_edges, edge_ok=noexc)
+            run.check("R8", p_ is None, f"no further block is sent before the answer was tested for ops.{member}", key=f"_do_block_operation|{member}|before-next-block",
+                      where=dbo.loc(x.ast) if x.ast is not None else dbo.loc(),
+                      message=f"after the exchange at line {x.lineno} the loop can go on to the next block without the device's latest answer having been tested for "
+                              f"ops.{member}: a device that already reported {'total' if member == 'SUCCESS' else 'partial'} success is sent the next block and the "
+                              "client gets an error code instead of the success", witness=g.describe_path(p_) if p_ else None)
+        # the T outcome answers (True, responses.<resp>) at once
+        for e in t_edges:
+            for lf in Walker(A, dbo, D, lambda e_: None, stop_at_for=True).walk(e):
+                v = lf.deep(lf.node.ast.value) if lf.kind == "return" and lf.node.ast.value is not None else None
+                run.check("R8", v is not None and _strip(norm(v)) == f"(True, responses.{resp})", f"ops.{member} -> (True, {resp})", key=f"_do_block_operation|{member}|answer",
+                          where=dbo.loc(lf.node.ast) if lf.node.ast is not None else dbo.loc(),
+                          message=f"when the device reports ops.{member} the method does `{lf.kind}` `{norm(v) if v is not None else ''}` instead of returning (True, responses.{resp})")
+        # and nothing else answers it
+        for r in [n for n in A.own_nodes(dbo) if isinstance(n, ast.Return) and n.value is not None and resp in norm(n.value)]:
+            for rn in g.nodes_of(r):
+                okd = any(g.dominates(e, rn) for e in t_edges) if hasattr(g, "dominates") else any(e in g.dominators(rn) for e in t_edges)
+                run.check("R8", okd, f"{resp} only when the device reported ops.{member}", key=f"_do_block_operation|{resp}|guard", where=dbo.loc(r),
+                          message=f"`{norm(r)[:60]}` is not dominated by the device's latest answer being ops.{member}")
 
 
 def _brother_list_answer(run, PV, D, dbo, g, lay):
